@@ -396,4 +396,76 @@ pub fn c07_two_woken_tasks() {
     dispatch!(w, two_woken_case, 4 1 7 3 5);
 }
 
+
+/// A task that, within ONE poll, spawns a child, optionally aborts it through its handle, and then
+/// awaits that same handle (`let h = ctx.spawn(..); if cond { h.abort(); } h.await;`).  The joiner's
+/// waker is registered while the child still sits in the spawn queue.
+pub struct LateJoiner {
+    pub ctx: crate::script::Ctx,
+    pub child_probe: Arc<Probe>,
+    pub child_slot: Arc<Slot>,
+    pub abort_child: bool,
+    pub handle: *mut crux_core::command::verif_hooks::JoinHandle,
+    pub flag: Arc<Probe>,
+}
+unsafe impl Send for LateJoiner {}
+
+impl std::future::Future for LateJoiner {
+    type Output = ();
+    fn poll(self: std::pin::Pin<&mut Self>, cx: &mut std::task::Context<'_>) -> std::task::Poll<()> {
+        let this = self.get_mut();
+        if this.handle.is_null() {
+            let (p, s) = (this.child_probe.clone(), this.child_slot.clone());
+            // the child finishes on its first poll (if it is ever polled)
+            let done = Step { ready: true, ..Step::pending() };
+            let h = this.ctx.spawn(move |ctx| Script::new([done, Step::pending(), Step::pending()], &p, &s, ctx, 5));
+            if this.abort_child {
+                h.abort();
+            }
+            this.handle = Box::into_raw(Box::new(h));
+        }
+        let handle = unsafe { &mut *this.handle };
+        match std::pin::Pin::new(handle).poll(cx) {
+            std::task::Poll::Ready(()) => {
+                this.flag.polls.store(1, std::sync::atomic::Ordering::SeqCst);
+                std::task::Poll::Ready(())
+            }
+            std::task::Poll::Pending => std::task::Poll::Pending,
+        }
+    }
+}
+
+/// J: 0 = spawn + join in one poll, 1 = spawn + abort + join in one poll
+fn late_join_case<const J: u8>() {
+    let pc = Arc::new(Probe::default());
+    let slot = Slot::new();
+    let flag = Arc::new(Probe::default());
+    let mut cmd: Cmd = {
+        let (pc, slot, flag) = (pc.clone(), slot.clone(), flag.clone());
+        crux_core::Command::new(move |ctx| LateJoiner {
+            ctx,
+            child_probe: pc,
+            child_slot: slot,
+            abort_child: J == 1,
+            handle: std::ptr::null_mut(),
+            flag,
+        })
+    };
+    hooks::run_until_settled(&mut cmd);
+    assert!(pc.polls() == u8::from(J == 0), "the child runs iff it was not aborted");
+    assert!(flag.polls() == 1, "a joiner registered while the task was still in the spawn queue is resumed");
+    assert!(hooks::live_tasks(&cmd) == 0, "nothing lingers");
+    assert!(cmd.is_done(), "command done");
+    nd_cover!(J == 0, "spawn and join in one poll");
+    nd_cover!(J == 1, "spawn, abort and join in one poll");
+    forget((cmd, pc, slot, flag));
+}
+
+#[cfg_attr(kani, kani::proof, kani::unwind(6))]
+#[cfg_attr(kani, kani::stub(core::mem::MaybeUninit::write, crate::common::maybe_uninit_write))]
+pub fn c07_spawn_abort_join() {
+    let j = nd::any_u8();
+    dispatch!(j, late_join_case, 0 1);
+}
+
 pub const _USES: usize = MAX_STEPS;
